@@ -14,6 +14,7 @@ import (
 	"strconv"
 	"strings"
 	"sync"
+	"syscall"
 
 	"github.com/ohler55/slip/pkg/repl"
 	"verifharness/common"
@@ -25,6 +26,7 @@ type Op struct {
 	N     int      `json:"n,omitempty"`
 	Start int      `json:"start,omitempty"`
 	End   int      `json:"end,omitempty"`
+	Via   string   `json:"via,omitempty"` // clear: "history" = History.Clear, "lisp" = (clear-history :start s :end e)
 }
 
 type Job struct {
@@ -59,15 +61,20 @@ func apply(h **repl.History, limit *int, hist string, o Op) {
 	case "add":
 		(*h).Add(formOf(o.Form))
 	case "clear":
-		(*h).Clear(o.Start, o.End)
+		if o.Via == "lisp" { // *h is repl.TheHistory: the Lisp function works on it (through its embedded Stash)
+			if out := common.EvalIn(lispScope, fmt.Sprintf("(clear-history :start %d :end %d)", o.Start, o.End)); out.Err != "" {
+				panic(out.Err + ": " + out.Msg)
+			}
+		} else {
+			(*h).Clear(o.Start, o.End)
+		}
 	case "limit":
 		*limit = o.N
 		(*h).SetLimit(o.N)
-	case "restart":
-		nh := &repl.History{}
-		nh.SetLimit(*limit)
-		nh.Load(hist)
-		*h = nh
+	case "restart": // a new process: an empty History (the global one stays the global one)
+		**h = repl.History{}
+		(*h).SetLimit(*limit)
+		(*h).Load(hist)
 	}
 }
 
@@ -83,7 +90,8 @@ func Worker(ctx *common.Ctx) {
 	if err = json.Unmarshal(data, &job); err != nil {
 		panic(err)
 	}
-	h := &repl.History{}
+	h := &repl.TheHistory
+	*h = repl.History{}
 	limit := job.Limit
 	h.SetLimit(limit)
 	h.Load(job.Hist)
@@ -120,7 +128,7 @@ func gOp(o Op) string {
 	case "add":
 		return "OAdd " + gForm(o.Form)
 	case "clear":
-		return "OClear"
+		return fmt.Sprintf("OClear (%d) (%d)", o.Start, o.End)
 	case "limit":
 		return fmt.Sprintf("OLimit (%d)", o.N)
 	}
@@ -199,9 +207,19 @@ func Run(ctx *common.Ctx) {
 				}
 				last = f
 				ops = append(ops, Op{Kind: "add", Form: f})
-			case x < 80:
-				ops = append(ops, Op{Kind: "clear", Start: 0, End: -1})
-			case x < 88:
+			case x < 82:
+				o := Op{Kind: "clear", Start: 0, End: -1, Via: "history"}
+				if ctx.Rng.Chance(50) {
+					o.Via = "lisp"
+				}
+				if ctx.Rng.Chance(65) { // a proper range: positions from the most recent entry, both ends may lie outside
+					o.Start, o.End = ctx.Rng.Intn(9)-2, ctx.Rng.Intn(11)-2
+					ctx.Hist("clear:range")
+				} else {
+					ctx.Hist("clear:all")
+				}
+				ops = append(ops, o)
+			case x < 89:
 				ops = append(ops, Op{Kind: "limit", N: ctx.Rng.Intn(12)})
 			default:
 				ops = append(ops, Op{Kind: "restart"})
@@ -209,7 +227,8 @@ func Run(ctx *common.Ctx) {
 		}
 		job := Job{Limit: limit, Hist: hist, Ops: ops}
 		// (a) in-process run with observations after every op
-		h := &repl.History{}
+		h := &repl.TheHistory
+		*h = repl.History{}
 		lim := limit
 		h.SetLimit(lim)
 		h.Load(hist)
@@ -256,7 +275,7 @@ func Run(ctx *common.Ctx) {
 		}
 	}
 	ctx.Meta.DistinctNontrivial = len(distinct)
-	ctx.Meta.Rule = "random sequences (3..30 ops, thorough 3..60) of History.Add (plain, multi-line, non-ASCII, adjacent duplicates, and in 35% of the sequences blank/leading-blank/trailing-blank/tab-containing/empty-line forms) / Clear(0,-1) / SetLimit(0..11) / restart, from an empty directory, an existing history or a stale history.tmp; memory, both files and a fresh Load observed after every op; for the first sequences of the run a worker process is killed (strace inject SIGKILL) on entering every state-changing openat/write/rename and the directory + fresh Load recorded; distinct = distinct op sequences of length >= 3; (c) histories of 3-12 KB in which the newline of one entry falls on byte 4094..4097, 8191..8193, 12288 or a random offset, single- and two-line forms, reloaded by a fresh History; (d) 25 (thorough 300) sequences of 2-5 REPL sessions, each a process of its own on the same configuration directory, setting 0-3 of five *print-...* variables (integers or nil): every session must start with the values last set in earlier sessions, compared with the settings model"
+	ctx.Meta.Rule = "random sequences (3..30 ops, thorough 3..60) of History.Add (plain, multi-line, non-ASCII, adjacent duplicates, and in 35% of the sequences blank/leading-blank/trailing-blank/tab-containing/empty-line forms) / Clear(start,end) (35% the whole range, else start in -2..6 and end in -2..8 counted from the most recent entry; through History.Clear or (clear-history :start s :end e) on the global repl.TheHistory) / SetLimit(0..11) / restart, from an empty directory, an existing history or a stale history.tmp; memory, both files and a fresh Load observed after every op; for the first sequences of the run a worker process is killed (strace inject SIGKILL) on entering every state-changing openat/write/rename and the directory + fresh Load recorded; distinct = distinct op sequences of length >= 3; (c) histories of 3-12 KB in which the newline of one entry falls on byte 4094..4097, 8191..8193, 12288 or a random offset, single- and two-line forms, reloaded by a fresh History; (d) 25 (thorough 300) sequences of 2-5 REPL sessions, each a process of its own on the same configuration directory, setting 0-3 of five *print-...* variables (integers or nil): every session must start with the values last set in earlier sessions, compared with the settings model; (e) 90 (thorough 900) sequences (3..24 ops, thorough 3..60) on the global repl.TheStash: Stash.Add (plain, multi-line, blanks at the ends, strings and comments holding parentheses, repetitions, and in 30% of the sequences blank/TAB-containing/empty-line/incomplete/two-expression/reader-rejected forms) / Stash.Clear or (clear-stash :start s :end e) with ranges as above / (use-stash file) / restart (empty Stash + LoadExpanded), from no stash file, one as Add writes it, one as Clear writes it, slip's hand-written test file, with or without a stale stash.lisp.tmp; memory (through Stash.Nth), both files and a fresh LoadExpanded (forms, reader failure) after every op; for the first sequences a worker process is killed on entering every state-changing system call; (f) 4 (thorough 40) configuration directories with saved settings: the session that changes one variable is killed on entering every state-changing system call on config.lisp / config.lisp.tmp and a fresh session reports the settings it starts with (must be all before or all after; compared with the step model of updateConfigFile)"
 	header := "From C20 Require Import Model Spec Corr.\nOpen Scope N_scope.\n"
 	footer := "Definition res := Eval vm_compute in check_all cases.\nPrint res.\nDefinition gcount := Eval vm_compute in guard_count cases.\nPrint gcount.\n"
 	ctx.WriteShards("cases", header, "case", footer, terms, descs, 16)
@@ -267,7 +286,17 @@ func Run(ctx *common.Ctx) {
 	sheader := "From Coq Require Import List ZArith.\nImport ListNotations.\nFrom C20 Require Import Settings.\nOpen Scope list_scope.\n"
 	sfooter := "Definition res := Eval vm_compute in check_settings cases.\nPrint res.\n"
 	ctx.WriteShards("settings", sheader, "(list (list (N * option Z) * list (N * option Z)))", sfooter, sterms, sdescs, 1)
-	replayKnown(ctx, base)
+	// (e) the stash: in process on repl.TheStash and in worker processes killed at every state-changing call
+	tterms, tdescs := stashRuns(ctx, self, base)
+	tfooter := "Definition res := Eval vm_compute in check_sall cases.\nPrint res.\nDefinition sgcount := Eval vm_compute in sguard_count cases.\nPrint sgcount.\n"
+	ctx.WriteShards("stash", header, "scase", tfooter, tterms, tdescs, 8)
+	// (f) a death while config.lisp is updated
+	cterms, cdescs := settingsCrashRuns(ctx, self, base)
+	if len(cterms) > 0 {
+		cfooter := "Definition res := Eval vm_compute in check_settings_crash cases.\nPrint res.\n"
+		ctx.WriteShards("settingscrash", sheader, "crash_case", cfooter, cterms, cdescs, 1)
+	}
+	replayKnown(ctx, self, base)
 }
 
 var reOpen = regexp.MustCompile(`openat\(AT_FDCWD(?:<[^>]*>)?, "([^"]+)", ([A-Z_|]+)`)
@@ -296,18 +325,40 @@ func prepDir(dir, hist string, init0 any, stale bool) {
 	}
 }
 
+// crashSpec describes one family of crash runs: which worker process is killed, on which file, and how
+// the directory is observed afterwards.
+type crashSpec struct {
+	tag     string                          // prefix of the scratch directories
+	worker  string                          // harness sub-command that runs the job (the process that gets killed)
+	fname   string                          // name of the file in the scratch directory; its temporary file is fname+".tmp"
+	env     string                          // environment variable that carries the job file
+	jobFor  func(file string) []byte        // the job, for the given file
+	init0   any                             // initial content of the file (string) or nil
+	stale   bool                            // a stale temporary file exists
+	observe func(file string) (string, any) // what a fresh session loads: Gallina term and record
+}
+
 func crashRuns(ctx *common.Ctx, self, base string, k int, job Job, init0 any, stale bool) ([]string, any) {
-	dir := filepath.Join(base, fmt.Sprintf("c%d", k))
-	hist := filepath.Join(dir, "history")
-	j2 := job
-	j2.Hist = hist
-	jobFile := filepath.Join(base, fmt.Sprintf("job%d.json", k))
-	data, _ := json.Marshal(&j2)
-	_ = os.WriteFile(jobFile, data, 0o644)
-	prepDir(dir, hist, init0, stale)
-	log := filepath.Join(base, fmt.Sprintf("log%d", k))
-	cmd := exec.Command("strace", append(stracePrefix(hist, log), self, "C20W", "--out", dir)...)
-	cmd.Env = append(os.Environ(), "VERIF_C20_JOB="+jobFile)
+	return crashGeneric(ctx, self, base, k, job, crashSpec{tag: "c", worker: "C20W", fname: "history", env: "VERIF_C20_JOB",
+		jobFor: func(file string) []byte {
+			j2 := job
+			j2.Hist = file
+			data, _ := json.Marshal(&j2)
+			return data
+		},
+		init0: init0, stale: stale,
+		observe: func(file string) (string, any) { ld := loadFresh(file); return gForms(ld), ld }})
+}
+
+func crashGeneric(ctx *common.Ctx, self, base string, k int, job any, cs crashSpec) ([]string, any) {
+	dir := filepath.Join(base, fmt.Sprintf("%s%d", cs.tag, k))
+	hist := filepath.Join(dir, cs.fname)
+	jobFile := filepath.Join(base, fmt.Sprintf("%sjob%d.json", cs.tag, k))
+	_ = os.WriteFile(jobFile, cs.jobFor(hist), 0o644)
+	prepDir(dir, hist, cs.init0, cs.stale)
+	log := filepath.Join(base, fmt.Sprintf("%slog%d", cs.tag, k))
+	cmd := exec.Command("strace", append(stracePrefix(hist, log), self, cs.worker, "--out", dir)...)
+	cmd.Env = append(os.Environ(), cs.env+"="+jobFile)
 	if out, err := cmd.CombinedOutput(); err != nil {
 		ctx.Violate("worker failed under strace", job, string(out), nil)
 		return nil, nil
@@ -319,7 +370,7 @@ func crashRuns(ctx *common.Ctx, self, base string, k int, job Job, init0 any, st
 		if strings.Contains(ln, "<unfinished") || strings.Contains(ln, "resumed>") {
 			// the worker is single threaded in its file operations; unfinished lines do not occur for them
 			if strings.Contains(ln, hist) {
-				ctx.Violate("strace split a history syscall line", ln, nil, nil)
+				ctx.Violate("strace split a syscall line of the traced file", ln, nil, nil)
 			}
 			continue
 		}
@@ -358,7 +409,7 @@ func crashRuns(ctx *common.Ctx, self, base string, k int, job Job, init0 any, st
 			changing = append(changing, e)
 		}
 	}
-	ctx.Hist(fmt.Sprintf("crash-points:%d", (len(changing)+9)/10*10))
+	ctx.Hist(fmt.Sprintf("%s-crash-points:%d", cs.fname, (len(changing)+9)/10*10))
 	obs := make([]string, len(changing))
 	recs := make([]any, len(changing))
 	var wg sync.WaitGroup
@@ -369,36 +420,33 @@ func crashRuns(ctx *common.Ctx, self, base string, k int, job Job, init0 any, st
 		sem <- struct{}{}
 		go func(i int, e sysEvent) {
 			defer func() { <-sem; wg.Done() }()
-			d := filepath.Join(base, fmt.Sprintf("c%d_%d", k, i))
-			h := filepath.Join(d, "history")
-			j3 := job
-			j3.Hist = h
-			jf := filepath.Join(base, fmt.Sprintf("job%d_%d.json", k, i))
-			dd, _ := json.Marshal(&j3)
-			_ = os.WriteFile(jf, dd, 0o644)
-			prepDir(d, h, init0, stale)
-			args := append(stracePrefix(h, "/dev/null"), "-e", fmt.Sprintf("inject=%s:signal=KILL:when=%d", e.typ, e.ordinal), self, "C20W", "--out", d)
+			d := filepath.Join(base, fmt.Sprintf("%s%d_%d", cs.tag, k, i))
+			h := filepath.Join(d, cs.fname)
+			jf := filepath.Join(base, fmt.Sprintf("%sjob%d_%d.json", cs.tag, k, i))
+			_ = os.WriteFile(jf, cs.jobFor(h), 0o644)
+			prepDir(d, h, cs.init0, cs.stale)
+			args := append(stracePrefix(h, "/dev/null"), "-e", fmt.Sprintf("inject=%s:signal=KILL:when=%d", e.typ, e.ordinal), self, cs.worker, "--out", d)
 			c := exec.Command("strace", args...)
-			c.Env = append(os.Environ(), "VERIF_C20_JOB="+jf)
+			c.Env = append(os.Environ(), cs.env+"="+jf)
 			_ = c.Run()
 			hf, hraw := gFile(h)
 			tf, traw := gFile(h + ".tmp")
-			ld := loadFresh(h)
 			mu.Lock()
-			obs[i] = fmt.Sprintf("(%s, %s, %s, %s)", e.gterm, hf, tf, gForms(ld))
-			recs[i] = map[string]any{"killed_on_entering": fmt.Sprintf("%s #%d (%s)", e.typ, e.ordinal, e.gterm), "history_file": hraw, "tmp_file": traw, "loaded_by_fresh_session": ld}
+			ld, ldrec := cs.observe(h)
+			obs[i] = fmt.Sprintf("(%s, %s, %s, %s)", e.gterm, hf, tf, ld)
+			recs[i] = map[string]any{"killed_on_entering": fmt.Sprintf("%s #%d (%s)", e.typ, e.ordinal, e.gterm), "file": hraw, "tmp_file": traw, "loaded_by_fresh_session": ldrec}
 			mu.Unlock()
 			_ = os.RemoveAll(d)
 			_ = os.Remove(jf)
 		}(i, e)
 	}
 	wg.Wait()
-	ctx.Meta.Extra = map[string]any{"note": "crash runs use strace -e inject=<syscall>:signal=KILL:when=<n> restricted with -P to the two history files"}
+	ctx.Meta.Extra = map[string]any{"note": "crash runs use strace -e inject=<syscall>:signal=KILL:when=<n> restricted with -P to the file and its temporary file"}
 	return obs, recs
 }
 
 // replayKnown replays the Go-level witnesses of known_findings/C20.json.
-func replayKnown(ctx *common.Ctx, base string) {
+func replayKnown(ctx *common.Ctx, self, base string) {
 	for _, id := range common.SortedKeys(ctx.Known) {
 		var w struct {
 			Scenario string `json:"scenario"`
@@ -445,8 +493,62 @@ func replayKnown(ctx *common.Ctx, base string) {
 				}
 				h.Clear(1, 2)
 				got = fmt.Sprint(formsOf(h))
+			case "clear-inplace":
+				// a rewrite through <file>.tmp and rename gives the history a new inode; a rewrite in place keeps it
+				h.SetLimit(10)
+				h.Load(hist)
+				for _, s := range []string{"a", "b", "c"} {
+					h.Add(formOf([]string{s}))
+				}
+				before := inode(hist)
+				h.Clear(0, 0)
+				sh := hist + "-stash"
+				var st repl.Stash
+				st.LoadExpanded(sh)
+				st.Add(formOf([]string{"(a)"}))
+				st.Add(formOf([]string{"(b)"}))
+				sbefore := inode(sh)
+				st.Clear(0, 0)
+				got = "replaced by rename"
+				if before == inode(hist) || sbefore == inode(sh) {
+					got = "rewritten in place"
+				}
+			case "config-inplace":
+				if _, ok := runSettingsSession(self, dir, []setOp{{Var: settingVars[0], Val: 77}}, nil); ok {
+					before := inode(filepath.Join(dir, "config.lisp"))
+					if _, ok = runSettingsSession(self, dir, []setOp{{Var: settingVars[1], Val: 12}}, nil); ok {
+						got = "replaced by rename"
+						if before == inode(filepath.Join(dir, "config.lisp")) {
+							got = "rewritten in place"
+						}
+					}
+				}
+			case "stash-empty-line":
+				var st repl.Stash
+				st.LoadExpanded(hist)
+				st.Add(formOf([]string{"(e", "", ")"}))
+				ld, _ := loadFreshStash(hist)
+				got = fmt.Sprintf("%q", ld[0])
+			case "stash-incomplete":
+				var st repl.Stash
+				st.LoadExpanded(hist)
+				st.Add(formOf([]string{"(p"}))
+				st.Add(formOf([]string{"(a)"}))
+				ld, _ := loadFreshStash(hist)
+				got = fmt.Sprint(ld)
 			}
 		}()
 		ctx.KnownResult(id, got == w.Observed, got)
 	}
+}
+
+func inode(path string) uint64 {
+	fi, err := os.Stat(path)
+	if err != nil {
+		return 0
+	}
+	if st, ok := fi.Sys().(*syscall.Stat_t); ok {
+		return st.Ino
+	}
+	return 0
 }
